@@ -159,6 +159,9 @@ func cmdCheck(repo, verif, prop, tier string, timeout int, verbose bool) int {
 	if prop == "C17" {
 		scans = e.scanDeterminism()
 	}
+	if prop == "C18" {
+		scans = append(scans, scanVariants(verif, pr))
+	}
 	if prop == "C01" || prop == "C02" || prop == "C03" || prop == "C04" || prop == "C05" || prop == "C11" {
 		scans = append(scans, e.scanAstImmutable())
 	}
@@ -468,4 +471,37 @@ func cmdBaseline(repo, verif string, timeout int) int {
 	os.WriteFile(filepath.Join(verif, "obligations.baseline.json"), data, 0o644)
 	fmt.Printf("baseline written, %d undecided\n", bad)
 	return 0
+}
+
+// scanVariants: every loop of a function under contract that does not range over a slice, string or map has a variant
+// (decreases / loopdecr), except the loops listed in spec/novariant.json, whose termination is not proved and is
+// stated as such in the evidence. A new loop without a variant is reported.
+func scanVariants(verif string, pr *propRun) scanResult {
+	allowed := map[string]bool{}
+	if data, err := os.ReadFile(filepath.Join(verif, "spec", "novariant.json")); err == nil {
+		var l []string
+		if json.Unmarshal(data, &l) == nil {
+			for _, x := range l {
+				allowed[x] = true
+			}
+		}
+	}
+	var bad, listed []string
+	seen := map[string]bool{}
+	for _, c := range pr.ctxs {
+		for _, n := range c.noVariant {
+			if seen[n] {
+				continue
+			}
+			seen[n] = true
+			if allowed[n] {
+				listed = append(listed, n)
+			} else {
+				bad = append(bad, n)
+			}
+		}
+	}
+	sort.Strings(bad)
+	sort.Strings(listed)
+	return scanResult{"scan[C18:variants]", len(bad) == 0, fmt.Sprintf("loops without a variant: %v; listed as not proved to terminate (spec/novariant.json): %v", bad, listed)}
 }
